@@ -9,10 +9,10 @@ package client
 //@   ensures[C02.not_done_without_trailer C13.wellformed] rpc.Trailer == nil ==> !result.0 && result.1 == nil
 //@   ensures[C02.done_with_trailer] rpc.Trailer != nil ==> result.0 && result.1 != nil
 //@   ensures[C02.eof_iff_ok C03.ok_is_eof] rpc.Trailer != nil && rpc.Reset_ == nil && (rpc.Status == nil || rpc.Status.Code == 0) ==> result.1 == io.EOF
-//@   ensures[C02.eof_only_if_ok C03.eof_only_if_ok] rpc.Trailer != nil && result.1 == io.EOF ==> (rpc.Status == nil || rpc.Status.Code == 0) && rpc.Reset_ == nil
+//@   ensures[C02.eof_only_if_ok C03.eof_only_if_ok C20.stream_success_only_on_clean_end] rpc.Trailer != nil && result.1 == io.EOF ==> (rpc.Status == nil || rpc.Status.Code == 0) && rpc.Reset_ == nil
 //@   ensures[C03.error_status] rpc.Trailer != nil && rpc.Status != nil && rpc.Status.Code != 0 ==>
 //@     | result.1 != io.EOF && isStatus(result.1) && stCode(result.1) == rpc.Status.Code && stMsg(result.1) == rpc.Status.Message && stDetails(result.1) == rpc.Status.Details
-//@   ensures[C03.reset_not_eof C02.reset_not_eof] rpc.Trailer != nil && rpc.Reset_ != nil ==> result.1 != nil && result.1 != io.EOF
+//@   ensures[C03.reset_not_eof C02.reset_not_eof C20.stream_success_only_on_clean_end] rpc.Trailer != nil && rpc.Reset_ != nil ==> result.1 != nil && result.1 != io.EOF
 
 //@ func client.toStatusError
 //@   nopanic[C13.nopanic]
@@ -77,7 +77,7 @@ package client
 //@   requires forall j Int :: 0 <= j && j < len(statsHandlers) ==> statsHandlers[j] != nil
 //@   makechan 0 tag streamId class client.handlers
 //@   makechan 1 tag streamId class client.signal own
-//@   atcall[C11.owner_signals_before_it_waits_for_the_registry_lock] client.(*RpcMultiplexer).unregisterHandler : closed(gone)
+//@   atcall[C11.owner_signals_before_it_waits_for_the_registry_lock C13.owner_signals_before_it_waits_for_the_registry_lock C09.owner_signals_before_it_waits_for_the_registry_lock] client.(*RpcMultiplexer).unregisterHandler : closed(gone)
 //@   atcall[C01.request_envelope C06.unary_request C05.fresh_id] (types.RpcReadWriter).Write :
 //@     | arg2 != nil && arg2.Id == streamId && arg2.Header == header && arg2.Body == body && arg2.Status == nil && arg2.Trailer == nil && arg2.Reset_ == nil && arg1 == ctx
 //@   atcall[C05.id_from_atomic_counter C01.id_from_atomic_counter] client.(*RpcMultiplexer).registerHandler : arg1 == streamId && streamId == lastret("sync/atomic.AddUint64")
@@ -121,7 +121,7 @@ package client
 //@ func client.(*RpcMultiplexer).NewStreamReadWriter$1
 //@   nopanic[C14.nopanic]
 //@   captures gone != nil && closable(gone)
-//@   atcall[C11.owner_signals_before_it_waits_for_the_registry_lock] client.(*RpcMultiplexer).unregisterHandler : ncalls("(*sync.Once).Do") == old(ncalls("(*sync.Once).Do")) + 1
+//@   atcall[C11.owner_signals_before_it_waits_for_the_registry_lock C13.owner_signals_before_it_waits_for_the_registry_lock C09.owner_signals_before_it_waits_for_the_registry_lock] client.(*RpcMultiplexer).unregisterHandler : ncalls("(*sync.Once).Do") == old(ncalls("(*sync.Once).Do")) + 1
 //@   atcall[C11.owner_takes_no_lock_before_it_signals C07.owner_takes_no_lock_before_it_signals] (*sync.Once).Do : ncalls("lock") == old(ncalls("lock"))
 //@   ensures[C14.teardown_unregisters] !(streamId in rm.handlers)
 
@@ -244,6 +244,8 @@ package client
 //@   requires !closed(cs.rCh)
 //@   requires[C13.latch_armed] cs.header == nil && wg(cs.ready) == 1
 //@   loop 0 invariant[C13.latch_armed] cs.header == nil ==> wg(cs.ready) == 1
+//@   loop 0 invariant[C13.latch_released_with_first_envelope] cs.header != nil ==> wg(cs.ready) == 0
+//@   ensures[C13.latch_released_at_exit] wg(cs.ready) == 0
 //@   loop 0 invariant[C13.latch_armed] !closed(cs.rCh)
 
 // ---------------------------------------------------------------------------------
